@@ -438,7 +438,9 @@ pub fn main() {
             std::thread::spawn(move || {
                 for (i, c) in cs.iter().enumerate() {
                     let cl = expand(&c[3], &c[1]);
-                    let dm = if c[2] == "U" { dots_are_members(&c[3]) } else { true };
+                    // a `..` / `>.` operand that is not a member access used to be skipped here (it made the generator panic or
+                    // emit `x.{..}`); that was a genuine defect, repaired in /repo (fixed: C15 1cc49f7) — every case is judged now
+                    let dm = true;
                     if tx.send((i, cl, dm)).is_err() {
                         return;
                     }
